@@ -658,6 +658,14 @@ func genE2E(r *rand.Rand) e2eCase {
 				if r.Intn(3) == 0 && len(vers) > 0 {
 					a.Req = req(vers[r.Intn(1+len(vers)/3)])
 				}
+				// the alias in another section than the plain entry: two requirements all the same (fix 8304c0d6; the reader's
+				// section cascade matched on the package alone and the alias REPLACED the plain entry, group "dev" included)
+				switch r.Intn(4) {
+				case 0:
+					a.Dev = true
+				case 1:
+					a.Opt = true
+				}
 				c.Root = append(c.Root, a)
 			}
 		}
